@@ -1190,6 +1190,11 @@ impl<K: AsRef<Key>> SigningContext<K> {
             return Err(ServerError::unsigned(match err {
                 ValidationError::BadTrunc => TsigRcode::BADTRUNC,
                 ValidationError::BadKey => TsigRcode::BADKEY,
+                // RFC 8945, section 5.2.3:
+                // > If the MAC fails to verify, the server MUST generate an
+                // > error response [...] with RCODE 9 (NOTAUTH) and TSIG
+                // > ERROR 16 (BADSIG).
+                ValidationError::BadSig => TsigRcode::BADSIG,
                 _ => TsigRcode::FORMERR,
             }));
         }
